@@ -134,6 +134,9 @@ func (cs *EstCase) weights() (ad.ConstVector, []float64) {
 // libEstimate runs the library and returns the estimated parameters
 func libEstimate(cs *EstCase) (th []float64, err error) {
 	err = guard(func() error {
+		if cs.Pool != nil && cs.Pool.Obs != nil {
+			return libEstimateSplit(cs, &th)
+		}
 		return runOnPool(cs.Pool, nil, func(p threadpool.ThreadPool) error { return libEstimateOn(cs, p, &th) })
 	})
 	return
@@ -261,6 +264,76 @@ func libEstimateOn(cs *EstCase, p threadpool.ThreadPool, thp *[]float64) (err er
 	}
 }
 
+// libEstimateSplit: batch interface, NewObservation for position k executed by thread Pool.Obs[k]
+func libEstimateSplit(cs *EstCase, thp *[]float64) error {
+	if cs.Variant != "batch" || len(cs.Pool.Obs) != len(cs.X) {
+		return fmt.Errorf("harness: observation->thread assignment needs the batch interface and one thread per observation")
+	}
+	gamma, _ := cs.weights()
+	gk := func(k int) ad.ConstScalar {
+		if gamma == nil {
+			return nil
+		}
+		return ad.ConstFloat64(gamma.ConstAt(k).GetFloat64())
+	}
+	switch cs.Family {
+	case "normal", "exponential", "poisson", "geometric", "categorical", "negbin":
+		_, b, err := scalarEst(cs.Family, cs.Conf)
+		if err != nil {
+			return fmt.Errorf("harness-construct: %v", err)
+		}
+		return runSplit(cs.Pool, b.Initialize,
+			func(k int, p threadpool.ThreadPool) error {
+				return b.NewObservation(ad.ConstFloat64(cs.X[k][0]), gk(k), p)
+			},
+			func() error {
+				d, err := b.GetEstimate()
+				if err != nil {
+					return err
+				}
+				*thp, err = pdfParams(cs.Family, d)
+				return err
+			})
+	}
+	var b st.VectorBatchEstimator
+	switch cs.Family {
+	case "vnormal":
+		n, err := ve.NewNormalEstimator([]float64{0, 0}, []float64{1, 0, 0, 1}, cs.Conf[0])
+		if err != nil {
+			return fmt.Errorf("harness-construct: %v", err)
+		}
+		b = n
+	case "scalarid":
+		e1, _, err := scalarEst("normal", cs.Conf)
+		if err != nil {
+			return err
+		}
+		e2, _, err := scalarEst("poisson", nil)
+		if err != nil {
+			return err
+		}
+		bb, err := ve.NewScalarBatchId(e1.(st.ScalarBatchEstimator), e2.(st.ScalarBatchEstimator))
+		if err != nil {
+			return err
+		}
+		b = bb
+	default:
+		return fmt.Errorf("harness: family %s has no batch interface", cs.Family)
+	}
+	return runSplit(cs.Pool, b.Initialize,
+		func(k int, p threadpool.ThreadPool) error {
+			return b.NewObservation(ad.NewDenseFloat64Vector(append([]float64{}, cs.X[k]...)), gk(k), p)
+		},
+		func() error {
+			d, err := b.GetEstimate()
+			if err != nil {
+				return err
+			}
+			*thp, err = pdfParams(cs.Family, d)
+			return err
+		})
+}
+
 func ekey(cs *EstCase, quantity, wh string) string {
 	g := "weights=nil"
 	if cs.G != nil {
@@ -327,6 +400,9 @@ func runEstCase(c *vf.Ctx, cs *EstCase, idx int64) {
 	}
 	if distinct {
 		c.Nontrivial(1)
+	}
+	if cs.Pool != nil && cs.Pool.Obs != nil {
+		c.Count("closed_form_cases_observations_split_over_threads", 1)
 	}
 	th, err := libEstimate(cs)
 	if err != nil {
@@ -497,6 +573,62 @@ func runClosed(c *vf.Ctx, nmax int) {
 								each(EstCase{Family: f.family, Variant: "estimate", Conf: conf, X: X, G: g, Pool: &PoolSpec{Threads: T, Caller: cl}})
 								if f.batch {
 									each(EstCase{Family: f.family, Variant: "batch", Conf: conf, X: X, G: g, Pool: &PoolSpec{Threads: T, Caller: cl}})
+								}
+							}
+						}
+					}
+				}
+			}
+		}
+	}
+	// the observations SPLIT over the threads (batch interface; NewObservation for position i
+	// with the pool value of thread a[i], pool.go runSplit): every assignment a of the positions
+	// to the T threads that uses at least two threads, T = 2 (thorough also 3), data sets of
+	// size 2..3 (thorough T=2 also 4) x every weight vector; calling thread 0 (thorough every thread)
+	maxT := 2
+	if nmax > 4 {
+		maxT = 3
+	}
+	for T := 2; T <= maxT; T++ {
+		nSplit := 3
+		if nmax > 4 && T == 2 {
+			nSplit = 4
+		}
+		callers := []int{0}
+		if nmax > 4 {
+			callers = callers[:0]
+			for cl := 0; cl < T; cl++ {
+				callers = append(callers, cl)
+			}
+		}
+		for _, f := range closedFamilies() {
+			if !f.batch {
+				continue
+			}
+			for _, conf := range f.confs {
+				if f.family == "vnormal" && conf[0] > 1e-8 {
+					continue // as above
+				}
+				for n := 2; n <= nSplit; n++ {
+					var splits [][]int
+					for _, a := range tuples(n, T) {
+						for _, t := range a {
+							if t != a[0] {
+								splits = append(splits, a)
+								break
+							}
+						}
+					}
+					gs := append([][]int{nil}, tuples(n, 3)...)
+					for _, xi := range tuples(n, len(f.alph)) {
+						X := make([][]float64, n)
+						for k, v := range xi {
+							X[k] = f.alph[v]
+						}
+						for _, g := range gs {
+							for _, a := range splits {
+								for _, cl := range callers {
+									each(EstCase{Family: f.family, Variant: "batch", Conf: conf, X: X, G: g, Pool: &PoolSpec{Threads: T, Caller: cl, Obs: a}})
 								}
 							}
 						}
